@@ -113,10 +113,14 @@ Qed.
 
 (** * Lifting the per-map invariants *)
 
+(** ... and with them the fact that each map inside the streamsMap is a reachable state of the
+    single-map model: the projection of a streams-map history onto one map (since the last
+    ResetFor0RTT) is a history of that map. *)
 Definition out_inv (uni client : bool) (m : outmap) : Prop :=
-  (exists n K B, InvOut (first_outgoing uni client) m n K B) /\ dead_ok m /\ o_uni m = uni.
+  (exists n K B, InvOut (first_outgoing uni client) m n K B) /\ dead_ok m /\ o_uni m = uni /\
+  oreach uni client m.
 Definition in_inv (uni client : bool) (N : Z) (m : inmap) : Prop :=
-  inv_in (first_incoming uni client) N m /\ i_uni m = uni.
+  inv_in (first_incoming uni client) N m /\ i_uni m = uni /\ ireach uni client N m.
 
 Definition sm_inv (s : smap) : Prop :=
   0 <= s_maxBidi s /\ 0 <= s_maxUni s /\
@@ -134,39 +138,40 @@ Definition top_ok (o : op) : Prop :=
 
 Lemma out_inv_init : forall uni client, out_inv uni client (init_out uni client).
 Proof.
-  intros. split; [exists 0, 0, (-1); apply inv_out_init|]. split; [apply dead_ok_init|reflexivity].
+  intros. split; [exists 0, 0, (-1); apply inv_out_init|]. split; [apply dead_ok_init|].
+  split; [reflexivity|apply oreach_init].
 Qed.
 
 Lemma in_inv_init : forall uni client N, 0 <= N -> in_inv uni client N (init_in uni client N).
-Proof. intros. split; [apply inv_in_init; assumption|reflexivity]. Qed.
+Proof. intros. split; [apply inv_in_init; assumption|]. split; [reflexivity|apply ireach_init]. Qed.
 
 Lemma sm_inv_init : forall client mb mu, 0 <= mb -> 0 <= mu -> sm_inv (init_sm client mb mu).
 Proof.
   intros. unfold sm_inv, init_sm; cbn [s_maxBidi s_maxUni s_client s_ib s_iu s_ob s_ou].
-  repeat split; auto using out_inv_init; try apply inv_in_init; try apply inv_out_init; auto;
-    try apply dead_ok_init.
-  - exists 0, 0, (-1). apply inv_out_init.
-  - exists 0, 0, (-1). apply inv_out_init.
+  split; [assumption|]. split; [assumption|].
+  split; [apply in_inv_init; assumption|]. split; [apply in_inv_init; assumption|].
+  split; apply out_inv_init.
 Qed.
 
 Lemma out_inv_step : forall uni client m op m' r fr,
   out_inv uni client m -> oop_ok (first_outgoing uni client) op -> ostep m op = (m', r, fr) ->
   out_inv uni client m'.
 Proof.
-  intros uni client m op m' r fr ((n & K & B & I) & D & U) Hok E.
+  intros uni client m op m' r fr ((n & K & B & I) & D & U & R) Hok E.
   pose proof (first_outgoing_range uni client) as Hf.
   destruct (ostep_inv _ _ _ _ _ _ _ _ _ Hf I Hok E) as (n' & K' & B' & I' & _ & _ & Hu & _).
-  split; [exists n', K', B'; exact I'|]. split; [eapply dead_ok_step; eauto|congruence].
+  split; [exists n', K', B'; exact I'|]. split; [eapply dead_ok_step; eauto|].
+  split; [congruence|eapply oreach_step; eauto].
 Qed.
 
 Lemma in_inv_step : forall uni client N m op m' r fr,
   in_inv uni client N m -> iop_ok (first_incoming uni client) op -> istep m op = (m', r, fr) ->
   in_inv uni client N m'.
 Proof.
-  intros uni client N m op m' r fr ((a & o & M & I) & U) Hok E.
+  intros uni client N m op m' r fr ((a & o & M & I) & U & R) Hok E.
   pose proof (first_incoming_range uni client) as Hf.
   destruct (istep_inv _ _ _ _ _ _ _ _ _ _ Hf I Hok E) as (a' & o' & M' & I' & _ & _ & _ & _ & Hu & _).
-  split; [exists a', o', M'; exact I'|congruence].
+  split; [exists a', o', M'; exact I'|]. split; [congruence|eapply ireach_step; eauto].
 Qed.
 
 (** the dispatch by ID sends a peer-initiated ID to the incoming map of its own class *)
@@ -298,14 +303,13 @@ Proof.
     apply (via_in_inv s false (IGetOrOpen id) s' r fr I); [|exact E].
     cbn [iop_ok]. rewrite <- U. apply dispatch_lattice; assumption.
   - inj3 E; subst s'. split; [|repeat split; reflexivity].
-    destruct I as (H1 & H2 & (H3 & H3') & (H4 & H4') & H5 & H6).
-    unfold sm_inv; simp_sm. repeat split; try assumption.
-    + eapply (out_inv_step false (s_client s) (s_ob s) (OpClose e)); [exact H5|exact Logic.I|reflexivity].
-    + eapply (out_inv_step false (s_client s) (s_ob s) (OpClose e)); [exact H5|exact Logic.I|reflexivity].
-    + eapply (out_inv_step false (s_client s) (s_ob s) (OpClose e)); [exact H5|exact Logic.I|reflexivity].
-    + eapply (out_inv_step true (s_client s) (s_ou s) (OpClose e)); [exact H6|exact Logic.I|reflexivity].
-    + eapply (out_inv_step true (s_client s) (s_ou s) (OpClose e)); [exact H6|exact Logic.I|reflexivity].
-    + eapply (out_inv_step true (s_client s) (s_ou s) (OpClose e)); [exact H6|exact Logic.I|reflexivity].
+    destruct I as (H1 & H2 & H3 & H4 & H5 & H6).
+    unfold sm_inv; simp_sm.
+    split; [exact H1|]. split; [exact H2|].
+    split; [eapply (in_inv_step false (s_client s) _ (s_ib s) (IClose e)); [exact H3|exact Logic.I|reflexivity]|].
+    split; [eapply (in_inv_step true (s_client s) _ (s_iu s) (IClose e)); [exact H4|exact Logic.I|reflexivity]|].
+    split; [eapply (out_inv_step false (s_client s) (s_ob s) (OpClose e)); [exact H5|exact Logic.I|reflexivity]|].
+    eapply (out_inv_step true (s_client s) (s_ou s) (OpClose e)); [exact H6|exact Logic.I|reflexivity].
   - inj3 E; subst s'. split; [|repeat split; reflexivity].
     destruct I as (H1 & H2 & _). unfold sm_inv; simp_sm.
     split; [exact H1|]. split; [exact H2|].
@@ -397,7 +401,7 @@ Proof.
   intros client mb mu ops s outs uni Hb Hu Hok E.
   destruct (trun_inv _ _ _ _ (sm_inv_init client mb mu Hb Hu) Hok E) as [I (P1 & P2 & P3)].
   cbn [init_sm s_client] in P1.
-  pose proof (sm_in s uni I) as (Inv & Hui). pose proof (sm_out s uni I) as ((n & K & B & Io) & D & Huo).
+  pose proof (sm_in s uni I) as (Inv & Hui & _). pose proof (sm_out s uni I) as ((n & K & B & Io) & D & Huo & _).
   rewrite P1 in *.
   split; [eapply in_facts_inv; eauto using first_incoming_range|]. split; [exact Hui|].
   split; [eapply out_facts_inv; eauto using first_outgoing_range|exact Huo].
@@ -721,3 +725,64 @@ Theorem sm_reset_blocks_api : forall s uni w c a, s_reset s = true ->
   tstep s (OSyncCall uni w c) = (s, RErr Err0RTT, []) /\
   tstep s (OAcceptCall uni a) = (s, RErr Err0RTT, []).
 Proof. intros s uni w c a H. unfold tstep; cbn [tstep_core]. rewrite H. cbn. repeat split; reflexivity. Qed.
+
+(** * Audit round: each map inside a reachable streamsMap is a reachable single-map state *)
+
+(** the projection of a streams-map history (any API history, including ResetFor0RTT, after which the
+    projected history starts afresh) onto one of its four maps is a history of the single-map model *)
+Theorem sm_components_reach : forall client mb mu ops s outs uni,
+  0 <= mb -> 0 <= mu -> Forall top_ok ops ->
+  trun (init_sm client mb mu) ops = (s, outs) ->
+  ireach uni client (if uni then mu else mb) (s_in s uni) /\ oreach uni client (s_out s uni).
+Proof.
+  intros client mb mu ops s outs uni Hb Hu Hok E.
+  destruct (trun_inv _ _ _ _ (sm_inv_init client mb mu Hb Hu) Hok E) as [I (P1 & P2 & P3)].
+  cbn [init_sm s_client s_maxBidi s_maxUni] in P1, P2, P3.
+  pose proof (sm_in s uni I) as (_ & _ & Ri). pose proof (sm_out s uni I) as (_ & _ & _ & Ro).
+  rewrite P1, P2, P3 in *. split; assumption.
+Qed.
+
+(** exact credit at the newStreamsMap level, every reachable state, both stream types *)
+Theorem sm_credit_exact : forall client mb mu ops s outs (uni : bool),
+  0 <= mb -> 0 <= mu -> Forall top_ok ops ->
+  trun (init_sm client mb mu) ops = (s, outs) ->
+  let N := (if uni then mu else mb) : Z in
+  in_opened (s_in s uni) + N <= SM_MaxStreamCount ->
+  in_credit (s_in s uni) + zlen (i_streams (s_in s uni)) = N.
+Proof.
+  intros client mb mu ops s outs uni Hb Hu Hok E N Hbd.
+  destruct (sm_components_reach _ _ _ _ _ _ uni Hb Hu Hok E) as [Ri _].
+  apply (in_credit_exact_reach uni client N (s_in s uni)); [unfold N; destruct uni; assumption|exact Ri|exact Hbd].
+Qed.
+
+(** the trace theorems of a single map apply to the part of the history since the last reset: there
+    IS a map history ending in the map's current state, and for it the IDs handed out by AcceptStream
+    are first, first+4, ..., the IDs of the locally opened streams are first, first+4, ... up to
+    nextStream (which is the "never opened" threshold of the STREAM_STATE_ERROR checks), and the
+    MAX_STREAMS frames form a strictly increasing chain from the configured limit *)
+Theorem sm_component_histories : forall client mb mu ops s outs (uni : bool),
+  0 <= mb -> 0 <= mu -> Forall top_ok ops ->
+  trun (init_sm client mb mu) ops = (s, outs) ->
+  let N := (if uni then mu else mb) : Z in
+  (exists iops iouts, Forall (iop_ok (first_incoming uni client)) iops /\
+     irun (init_in uni client N) iops = (s_in s uni, iouts) /\
+     accepted iops iouts = ids_from (first_incoming uni client) (length (accepted iops iouts)) /\
+     i_nextAccept (s_in s uni) = first_incoming uni client + 4 * zlen (accepted iops iouts) /\
+     chain uni N (frames_of iouts) (in_adv (s_in s uni))) /\
+  (exists oops oouts, Forall (oop_ok (first_outgoing uni client)) oops /\
+     orun (init_out uni client) oops = (s_out s uni, oouts) /\
+     opened oops oouts = ids_from (first_outgoing uni client) (length (opened oops oouts)) /\
+     o_next (s_out s uni) = first_outgoing uni client + 4 * zlen (opened oops oouts) /\
+     Forall (fun id => id <= o_max (s_out s uni)) (opened oops oouts)).
+Proof.
+  intros client mb mu ops s outs uni Hb Hu Hok E N.
+  assert (HN : 0 <= N) by (unfold N; destruct uni; assumption).
+  destruct (sm_components_reach _ _ _ _ _ _ uni Hb Hu Hok E) as [(iops & iouts & Hi & Ei) (oops & oouts & Ho & Eo)].
+  fold N in Ei. split.
+  - exists iops, iouts. split; [exact Hi|]. split; [exact Ei|].
+    destruct (in_accept_order _ _ _ _ _ _ HN Hi Ei) as [A1 A2].
+    destruct (in_bound _ _ _ _ _ _ HN Hi Ei) as (_ & _ & _ & Hc & _).
+    repeat split; assumption.
+  - exists oops, oouts. split; [exact Ho|]. split; [exact Eo|].
+    destruct (out_ids _ _ _ _ _ Ho Eo) as (O1 & O2 & O3 & _). repeat split; assumption.
+Qed.
